@@ -1,7 +1,7 @@
 CONSTANTS
-  MaxTicks = 210
-  InitShapes = {0, 1, 2, 3, 4, 5, 6, 7, 8, 9, 10, 11, 12, 13, 14, 15}
-  InitTP = {0, 1, 3, 4}
+  MaxTicks = 105
+  InitShapes = {3, 9, 12, 14}
+  InitTP = {0, 3}
 SPECIFICATION Spec
 INVARIANTS TypeOK InvDecode InvTone InvNoise InvEnv InvEnvRate InvShape InvMixer InvDac InvAdvance InvPan
 CHECK_DEADLOCK FALSE
